@@ -1,20 +1,10 @@
-//! Harnesses that need only crate-visible items (child module of the crate root).
+//! Hand-written harnesses that need only crate-visible items (child module of the crate root).
 use crate::__vspec::*;
 use crate::*;
 
-// @h name=c01_p8_mul props=C01 fn=P8E0::mul tier=quick t=60 kind=contract
+// @h name=c01_p8_mul_contract props=C01 fn=P8E0::mul tier=quick t=60 kind=contract unwind=10
 #[kani::proof_for_contract(P8E0::mul)]
 #[kani::unwind(10)]
-fn c01_p8_mul() {
+fn c01_p8_mul_contract() {
     P8E0::from_bits(kani::any()).mul(P8E0::from_bits(kani::any()));
-}
-
-// @h name=c09_p8_ceil props=C09 fn=P8E0::ceil tier=quick t=60 kind=plain
-#[kani::proof]
-#[kani::unwind(10)]
-fn c09_p8_ceil() {
-    let a: u8 = kani::any();
-    let r = P8E0::from_bits(a).ceil().to_bits();
-    trace("c09_p8_ceil", &[a as u64, r as u64]);
-    assert!(intfn_ok(a as u64, r as u64, 8, 0, IMode::Ceil), "ceil contract");
 }
